@@ -55,7 +55,7 @@ def gen_cases(rng, tier):
         m = rng.choice([1, 2, 3, 4, 5, 8, 13, 64, 100, 959, 10007])
         k = rng.randint(1, min(m, 9)) if rng.random() < 0.8 else m if m <= 13 else rng.randint(1, 9)
         cases.append({"kind": "idx", "key": rng.choice(ELEMS) + rng.choice(["", ":1", "_", "é"]), "k": k, "m": m, "nalg": rng.choice([1, 1, 2])})
-    for _ in range(ni // 20):     # dense requests: k close to m, long re-probe chains before the last free index is found
+    for _ in range(min(ni // 20, 80)):     # dense requests (capped: each costs about a second of vm_compute): k close to m, long re-probe chains before the last free index is found
         m = rng.choice([20, 32, 50, 50, 64, 64, 100])
         k = rng.choice([m, m, m - 1, m - 2, (3 * m) // 4])
         # (crc32 only: the harness's second stand-in algorithm, adler32, is too weak for dense requests - its residues cycle)
